@@ -19,7 +19,7 @@ namespace Jrpc.SubServer
 
 /-- the full-strength statement of C06.1 (proved below as `c06_unsub_truth`) -/
 def c06_unsub_truth_statement : Prop :=
-  ∀ st, Reachable st → ∀ c m x rid b, (step st (.unsubscribe c m x rid)).2 = .bool b →
+  ∀ st, ReachableD st → ∀ c m x rid b, (step st (.unsubscribe c m x rid)).2 = .bool b →
     (b = true ↔ ∃ s ∈ st.subs, s.conn = c ∧ s.meth = m ∧ s.subId = x ∧ Active st s)
 
 theorem unsub_out {st : State} {c m x rid : Nat} {b : Bool}
@@ -55,21 +55,21 @@ theorem unsub_out {st : State} {c m x rid : Nat} {b : Bool}
 states, see `noOrphan_of_fixed`): `unsubscribe(conn, x)` answers true exactly when it names a
 subscription currently active on that connection. -/
 theorem unsub_truth_of_noOrphan (st : State) (hr : Reachable st) (hno : NoOrphan st)
-    (c m x rid : Nat) (b : Bool) (h : (step st (.unsubscribe c m x rid)).2 = .bool b) :
+    (hnd : ∀ s ∈ st.subs, s.displaced = false) (c m x rid : Nat) (b : Bool) (h : (step st (.unsubscribe c m x rid)).2 = .bool b) :
     (b = true ↔ ∃ s ∈ st.subs, s.conn = c ∧ s.meth = m ∧ s.subId = x ∧ Active st s) := by
   have inv := reachable_inv hr
   obtain ⟨cn, hc, hopen, _, hb⟩ := unsub_out h
   rw [hb]
   constructor
   · rintro ⟨s, hs, hk⟩
-    simp only [tableKey, Bool.and_eq_true, beq_iff_eq] at hk
+    simp only [tableKey, sameKey, Bool.and_eq_true, beq_iff_eq] at hk
     obtain ⟨⟨⟨h1, h2⟩, h3⟩, h4⟩ := hk
     have t := ((inv.subOk s hs).table.mp h4)
     exact ⟨s, hs, h1, h2, h3, t.1, t.2.1, t.2.2.1, cn, by rw [h1]; exact hc, hopen⟩
   · rintro ⟨s, hs, h1, h2, h3, ha, hu, hcl, _⟩
     refine ⟨s, hs, ?_⟩
-    have : s.inTable = true := (inv.subOk s hs).table.mpr ⟨ha, hu, hcl, hno s hs⟩
-    simp [tableKey, h1, h2, h3, this]
+    have : s.inTable = true := (inv.subOk s hs).table.mpr ⟨ha, hu, hcl, hno s hs, hnd s hs⟩
+    simp [tableKey, sameKey, h1, h2, h3, this]
 
 /-- an open, not stopping connection with queue room always answers an unsubscribe call -/
 theorem c06_unsub_answered (st : State) (c m x rid : Nat) (cn : Conn) (hc : st.conns[c]? = some cn)
@@ -82,24 +82,19 @@ theorem c06_unsub_answered (st : State) (c m x rid : Nat) (cn : Conn) (hc : st.c
     obtain ⟨s, hk, _⟩ := findIdx_some hf
     exact ⟨true, by simp [hk]⟩
 
-/-- "another connection's id": ids are unique, so naming subscription `s` from a connection other
-than its own is answered false (no F-13 hypothesis needed) -/
-theorem c06_unsub_foreign (st : State) (hr : Reachable st) (s : Sub) (hs : s ∈ st.subs)
-    (c m rid : Nat) (hne : s.conn ≠ c) (b : Bool)
-    (h : (step st (.unsubscribe c m s.subId rid)).2 = .bool b) : b = false := by
-  have inv := reachable_inv hr
+/-- "another connection's id": the answer depends only on the records of the calling connection —
+if that connection has no subscription under the id, the answer is false, whatever other
+connections hold under the same id (ids need only be unique per connection) -/
+theorem c06_unsub_foreign (st : State) (c m x rid : Nat)
+    (hnone : ∀ t ∈ st.subs, t.conn = c → t.meth = m → t.subId ≠ x) (b : Bool)
+    (h : (step st (.unsubscribe c m x rid)).2 = .bool b) : b = false := by
   obtain ⟨cn, _, _, _, hb⟩ := unsub_out h
   cases b with
   | false => rfl
   | true =>
     obtain ⟨s', hs', hk⟩ := hb.mp rfl
-    simp only [tableKey, Bool.and_eq_true, beq_iff_eq] at hk
-    obtain ⟨i, hi⟩ := List.mem_iff_getElem?.mp hs
-    obtain ⟨j, hj⟩ := List.mem_iff_getElem?.mp hs'
-    have := inv.idUniq i j s s' hi hj hk.1.2.symm
-    subst this
-    rw [hi] at hj; cases hj
-    exact absurd hk.1.1.1 hne
+    simp only [tableKey, sameKey, Bool.and_eq_true, beq_iff_eq] at hk
+    exact absurd hk.1.2 (hnone s' hs' hk.1.1.1 hk.1.1.2)
 
 /-- "already unsubscribed": after an unsubscribe that answered true, the same call answers false -/
 theorem c06_unsub_twice (st : State) (hr : Reachable st) (c m x rid rid' : Nat)
@@ -134,23 +129,17 @@ theorem c06_unsub_twice (st : State) (hr : Reachable st) (c m x rid rid' : Nat)
             obtain ⟨s, hk, hp⟩ := findIdx_some hf
             simp only [hf, hk] at hs2
             simp only [put] at hs2
-            simp only [tableKey, Bool.and_eq_true, beq_iff_eq] at hk2 hp
-            rcases List.mem_or_eq_of_mem_set hs2 with hold | hnew
-            · obtain ⟨j, hj⟩ := List.mem_iff_getElem?.mp hold
-              have e := inv.idUniq j k s2 s hj hk (by rw [hk2.1.2, hp.1.2])
-              subst e
-              -- but position k now holds the rewritten record
-              have hlen : j < st.subs.length := by
-                rcases List.getElem?_eq_some_iff.mp hk with ⟨hh, _⟩; exact hh
-              obtain ⟨j2, hj2⟩ := List.mem_iff_getElem?.mp hs2
-              rcases getElem?_set_cases hj2 with ⟨_, e2⟩ | ⟨hne, hj2'⟩
-              · rw [e2] at hk2; simp at hk2
-              · have := inv.idUniq j2 j s2 s hj2' hk (by rw [hk2.1.2, hp.1.2])
-                exact hne this
-            · rw [hnew] at hk2; simp at hk2
+            simp only [tableKey, sameKey, Bool.and_eq_true, beq_iff_eq] at hk2 hp
+            obtain ⟨j2, hj2⟩ := List.mem_iff_getElem?.mp hs2
+            rcases getElem?_set_cases hj2 with ⟨_, e2⟩ | ⟨hne, hj2'⟩
+            · rw [e2] at hk2; simp at hk2
+            · -- another record under the same key owning an entry: the table is a map
+              have := inv.tableUniq j2 k s2 s hj2' hk hk2.2 hp.2 (by
+                simp only [sameKey, Bool.and_eq_true, beq_iff_eq]; omega)
+              exact hne this
 
 theorem sink_open_iff_active_of_noOrphan (st : State) (hr : Reachable st) (hno : NoOrphan st)
-    (k : Nat) (b : Bool) (h : (step st (.isClosed k)).2 = .bool b) :
+    (hnd : ∀ s ∈ st.subs, s.displaced = false) (k : Nat) (b : Bool) (h : (step st (.isClosed k)).2 = .bool b) :
     ∃ s, st.subs[k]? = some s ∧ (b = false ↔ Active st s) := by
   have inv := reachable_inv hr
   simp only [step, doIsClosed] at h
@@ -177,7 +166,7 @@ theorem sink_open_iff_active_of_noOrphan (st : State) (hr : Reachable st) (hno :
         exact ⟨this.1, this.2.1, this.2.2.1, cn, hc, hb.1⟩
       · rintro ⟨ha, hu, _, cn', hc', ho⟩
         rw [hc] at hc'; cases hc'
-        have : s.inTable = true := t.mpr ⟨ha, hu, hcl, hno s hmem⟩
+        have : s.inTable = true := t.mpr ⟨ha, hu, hcl, hno s hmem, hnd s hmem⟩
         simp [ho, this]
 
 /-! #### the F-13 region -/
@@ -196,7 +185,7 @@ theorem noOrphan_step (hfix : ∀ n, n ≥ 2 → dropSinkRemovesEntry n = false)
   have lk : ∀ {k s cn}, lookup st k = some (s, cn) → s.orphaned = false :=
     fun hl => h _ (lookup_mem hl)
   cases op with
-  | subscribe c m rid =>
+  | subscribe c m rid sid =>
     simp only [step, doSubscribe]
     split
     · exact h
@@ -220,7 +209,15 @@ theorem noOrphan_step (hfix : ∀ n, n ≥ 2 → dropSinkRemovesEntry n = false)
         · exact noOrphan_put h _ _ _ (by simpa using lk hl)
         · split
           · exact h
-          · exact noOrphan_put h _ _ _ (by simpa using lk hl)
+          · rename_i s cn _ _ _
+            have hm : NoOrphan { st with subs := st.subs.map (displace s.conn s.meth s.subId) } := by
+              intro x hx
+              simp only [List.mem_map] at hx
+              obtain ⟨t, ht, rfl⟩ := hx
+              have := h t ht
+              unfold displace
+              split <;> simpa using this
+            exact noOrphan_put hm _ _ _ (by simpa using lk hl)
   | reject k code =>
     simp only [step, doRefuse]
     split
@@ -351,19 +348,24 @@ theorem dropSink_nonlast : ∀ n, n ≥ 2 → dropSinkRemovesEntry n = false := 
 theorem reachable_noOrphan {st : State} (hr : Reachable st) : NoOrphan st :=
   noOrphan_of_fixed dropSink_nonlast hr
 
-/-- **C06.1** (full strength).  In every reachable state `unsubscribe(conn, x)` answers true exactly
+/-- **C06.1** (full strength).  In every state reachable with an id provider that hands out only ids
+that are free on the connection (`ReachableD`; ids MAY be re-used once their subscription was
+unsubscribed or ended, and MAY be in use on other connections) `unsubscribe(conn, x)` answers true exactly
 when it names a subscription that is currently active on the same connection: accepted, not
 unsubscribed, the handler still holds a sink, connection open — hence false for an unknown id,
 another connection's id, a second unsubscribe, a handler that is gone. -/
 theorem c06_unsub_truth : c06_unsub_truth_statement :=
-  fun st hr c m x rid b h => unsub_truth_of_noOrphan st hr (reachable_noOrphan hr) c m x rid b h
+  fun st hr c m x rid b h =>
+    unsub_truth_of_noOrphan st (reachableD_reachable hr) (reachable_noOrphan (reachableD_reachable hr))
+      (reachableD_clean hr).noDispl c m x rid b h
 
 /-- **C06.1**: a subscription stays active as long as it has not been unsubscribed, its connection
 is open and the handler still holds a sink — the sink reports open exactly then -/
-theorem c06_sink_open_iff_active (st : State) (hr : Reachable st) (k : Nat) (b : Bool)
+theorem c06_sink_open_iff_active (st : State) (hr : ReachableD st) (k : Nat) (b : Bool)
     (h : (step st (.isClosed k)).2 = .bool b) :
     ∃ s, st.subs[k]? = some s ∧ (b = false ↔ Active st s) :=
-  sink_open_iff_active_of_noOrphan st hr (reachable_noOrphan hr) k b h
+  sink_open_iff_active_of_noOrphan st (reachableD_reachable hr) (reachable_noOrphan (reachableD_reachable hr))
+    (reachableD_clean hr).noDispl k b h
 
 /-! ### C06.2 — the cap -/
 
@@ -376,12 +378,12 @@ theorem c06_cap (st : State) (hr : Reachable st) (c : Nat) (cn : Conn) (hc : st.
 
 /-- C06.2: a subscribe call on a serving connection is refused (-32006; `blocked` = the refusal is
 waiting for queue room) exactly when the count is at the cap, and is admitted otherwise -/
-theorem c06_refusal_iff (st : State) (hr : Reachable st) (c m rid : Nat) (cn : Conn)
+theorem c06_refusal_iff (st : State) (hr : Reachable st) (c m rid sid : Nat) (cn : Conn)
     (hc : st.conns[c]? = some cn) (ho : cn.isOpen = true) (hs : cn.stopping = false) :
-    (((step st (.subscribe c m rid)).2 = .refused ∨ (step st (.subscribe c m rid)).2 = .blocked)
+    (((step st (.subscribe c m rid sid)).2 = .refused ∨ (step st (.subscribe c m rid sid)).2 = .blocked)
         ↔ held st c = cn.cap) ∧
-    ((∃ sid, (step st (.subscribe c m rid)).2 = .pending sid) ↔ held st c < cn.cap) ∧
-    (cn.hasRoom = true → (step st (.subscribe c m rid)).2 ≠ .blocked) := by
+    ((step st (.subscribe c m rid sid)).2 = .pending sid ↔ held st c < cn.cap) ∧
+    (cn.hasRoom = true → (step st (.subscribe c m rid sid)).2 ≠ .blocked) := by
   have hp := (reachable_inv hr).permit c cn hc
   simp only [step, doSubscribe, hc, ho, hs]
   by_cases h0 : cn.permitsFree = 0
@@ -416,10 +418,10 @@ theorem c06_slot_return (st : State) (hr : Reachable st) (c : Nat) (cn : Conn)
   have := held_add_ended st c
   omega
 
-theorem subscribe_ok_state {st : State} {c m rid : Nat} {cn : Conn} (hc : st.conns[c]? = some cn)
+theorem subscribe_ok_state {st : State} {c m rid sid : Nat} {cn : Conn} (hc : st.conns[c]? = some cn)
     (ho : cn.isOpen = true) (hs : cn.stopping = false) (hpf : cn.permitsFree ≠ 0) :
-    (step st (.subscribe c m rid)).2 = .pending st.nextId ∧
-    (step st (.subscribe c m rid)).1.conns[c]? = some { cn with permitsFree := cn.permitsFree - 1 } := by
+    (step st (.subscribe c m rid sid)).2 = .pending sid ∧
+    (step st (.subscribe c m rid sid)).1.conns[c]? = some { cn with permitsFree := cn.permitsFree - 1 } := by
   have : (cn.permitsFree == 0) = false := by simpa using hpf
   have hlen : c < st.conns.length := by
     rcases List.getElem?_eq_some_iff.mp hc with ⟨hh, _⟩; exact hh
@@ -428,34 +430,93 @@ theorem subscribe_ok_state {st : State} {c m rid : Nat} {cn : Conn} (hc : st.con
 
 /-- C06.3 corollary: whatever happened before, as many new subscribe calls succeed in a row as
 there are free slots (`cap − held`) — in particular k after k subscriptions have ended at the cap -/
-theorem c06_reuse (reqs : List (Nat × Nat)) : ∀ (st : State), Reachable st → ∀ (c : Nat) (cn : Conn),
+theorem c06_reuse (reqs : List (Nat × Nat × Nat)) : ∀ (st : State), Reachable st → ∀ (c : Nat) (cn : Conn),
     st.conns[c]? = some cn → cn.isOpen = true → cn.stopping = false →
     reqs.length + held st c ≤ cn.cap →
-    ∀ o ∈ outs st (reqs.map (fun r => Op.subscribe c r.1 r.2)), ∃ sid, o = .pending sid := by
+    ∀ o ∈ outs st (reqs.map (fun r => Op.subscribe c r.1 r.2.1 r.2.2)), ∃ sid, o = .pending sid := by
   induction reqs with
   | nil => intro st _ c cn _ _ _ _ o ho; simp [outs] at ho
   | cons r rest ih =>
     intro st hr c cn hc ho hs hlen o hmem
     have hp := (reachable_inv hr).permit c cn hc
     have hpf : cn.permitsFree ≠ 0 := by simp at hlen; omega
-    obtain ⟨hout, hconn⟩ := subscribe_ok_state (m := r.1) (rid := r.2) hc ho hs hpf
+    obtain ⟨hout, hconn⟩ := subscribe_ok_state (m := r.1) (rid := r.2.1) (sid := r.2.2) hc ho hs hpf
     simp only [List.map_cons, outs, List.mem_cons] at hmem
     rcases hmem with rfl | hmem
     · exact ⟨_, hout⟩
-    · have hr' := reachable_step hr (.subscribe c r.1 r.2)
+    · have hr' := reachable_step hr (.subscribe c r.1 r.2.1 r.2.2)
       have hp' := (reachable_inv hr').permit c _ hconn
       refine ih _ hr' c _ hconn ho hs ?_ o hmem
       simp at hlen hp' ⊢
       omega
 
-/-! ### non-vacuity and the F-13 witness -/
+/-! ### C06.1 — id re-use: a late release never touches a newer subscription under the same id -/
+
+/-- Dropping a sink handle of subscription record `k` changes no other record: whatever is
+registered under the same (connection, id) key for a NEWER subscription (the id was handed out
+again after an unsubscribe) keeps its table entry, however late the old handler lets go. -/
+theorem c06_drop_touches_only_own_record (st : State) (k j : Nat) (hjk : j ≠ k) :
+    (step st (.dropSink k)).1.subs[j]? = st.subs[j]? := by
+  simp only [step, doDropSink]
+  split
+  · rfl
+  · split
+    · rfl
+    · simp only [put]
+      exact List.getElem?_set_ne (fun e => hjk e.symm)
+
+/-- … and it closes no connection -/
+theorem c06_drop_keeps_conn_open (st : State) (k c : Nat) :
+    connOpen (step st (.dropSink k)).1 c ↔ connOpen st c := by
+  simp only [step, doDropSink]
+  split
+  · rfl
+  · rename_i s cn hl
+    obtain ⟨_, hc⟩ := lookup_some hl
+    have hlen : s.conn < st.conns.length := by
+      rcases List.getElem?_eq_some_iff.mp hc with ⟨hh, _⟩; exact hh
+    split
+    · rfl
+    · simp only [put, connOpen, List.getElem?_set]
+      by_cases e : s.conn = c
+      · subst e
+        simp only [hlen, if_true, hc]
+        constructor
+        · rintro ⟨cn', h1, h2⟩
+          simp at h1; subst h1
+          refine ⟨cn, rfl, ?_⟩
+          revert h2; split <;> simp [Conn.release]
+        · rintro ⟨cn', h1, h2⟩
+          simp at h1; subst h1
+          refine ⟨_, rfl, ?_⟩
+          split <;> simpa [Conn.release] using h2
+      · simp [e]
+
+/-- **C06.1, id re-use.**  A subscription that is active stays active across the (late) release
+of ANY other subscription's sink — in particular of an earlier, already unsubscribed subscription
+that had the same id on the same connection — and an unsubscribe naming it still answers true. -/
+theorem c06_late_drop_keeps_newer (st : State) (hr : ReachableD st) (k j : Nat) (hjk : j ≠ k) (t : Sub)
+    (ht : st.subs[j]? = some t) (hact : Active st t) (rid : Nat) :
+    (step st (.dropSink k)).1.subs[j]? = some t ∧ Active (step st (.dropSink k)).1 t ∧
+      ∀ b, (step (step st (.dropSink k)).1 (.unsubscribe t.conn t.meth t.subId rid)).2 = .bool b → b = true := by
+  have h1 : (step st (.dropSink k)).1.subs[j]? = some t := by
+    rw [c06_drop_touches_only_own_record st k j hjk]; exact ht
+  have h2 : Active (step st (.dropSink k)).1 t :=
+    ⟨hact.1, hact.2.1, hact.2.2.1, (c06_drop_keeps_conn_open st k t.conn).mpr hact.2.2.2⟩
+  refine ⟨h1, h2, ?_⟩
+  intro b hb
+  have hr' : ReachableD (step st (.dropSink k)).1 := reachableD_step hr (.dropSink k) trivial
+  exact (c06_unsub_truth _ hr' _ _ _ _ b hb).mpr
+    ⟨t, List.mem_iff_getElem?.mpr ⟨j, h1⟩, rfl, rfl, rfl, h2⟩
+
+/-! ### non-vacuity, the F-13 history, the id re-use history -/
 
 section Examples
 
 /-- the history of finding F-13 — one connection, cap 1: subscribe, accept, clone the sink, drop the
 clone.  A sink is still held, so the subscription is active: unsubscribe answers true, the sink
 reports open, a send is delivered.  (Before fix 2bde692 the code answered false / closed / error.) -/
-def f13Ops : List Op := [.subscribe 0 0 7, .accept 0, .cloneSink 0, .dropSink 0]
+def f13Ops : List Op := [.subscribe 0 0 7 1, .accept 0, .cloneSink 0, .dropSink 0]
 def f13State : State := run (init [(1, 8)]) f13Ops
 
 example : (step f13State (.unsubscribe 0 0 1 9)).2 = .bool true := by decide
@@ -464,10 +525,35 @@ example : (step f13State (.send 0 5)).2 = .ok := by decide
 example : ∃ s ∈ f13State.subs, s.conn = 0 ∧ s.meth = 0 ∧ s.subId = 1 ∧
     s.phase = .accepted ∧ s.unsubscribed = false ∧ s.clones = 1 ∧ s.inTable = true := by decide
 -- … and the slot is only returned with the last handle
-example : outs f13State [.subscribe 0 0 8, .dropSink 0, .subscribe 0 0 9] = [.refused, .ok, .pending 2] := by decide
+example : outs f13State [.subscribe 0 0 8 2, .dropSink 0, .subscribe 0 0 9 2] = [.refused, .ok, .pending 2] := by decide
+
+/-- the history of seeded change C06-3 — the id provider re-uses id 5 after its subscription was
+unsubscribed; the first handler lets go of its sink only after the second subscription (same id,
+same connection) is active.  The late drop must not remove the newer entry. -/
+def reuseOps : List Op :=
+  [.subscribe 0 0 1 5, .accept 0, .unsubscribe 0 0 5 2, .subscribe 0 0 3 5, .accept 1, .dropSink 0]
+def reuseState : State := run (init [(2, 8)]) reuseOps
+
+example : DisciplinedRun (init [(2, 8)]) reuseOps := by decide
+example : outs (init [(2, 8)]) reuseOps = [.pending 5, .ok, .bool true, .pending 5, .ok, .ok] := by decide
+example : (step reuseState (.unsubscribe 0 0 5 4)).2 = .bool true := by decide
+example : (step reuseState (.isClosed 1)).2 = .bool false := by decide
+example : (step reuseState (.send 1 7)).2 = .ok := by decide
+example : held reuseState 0 = 1 := by decide
+-- the same id in use on two connections at once is two different subscriptions
+example : outs (init [(1, 8), (1, 8)])
+    [.subscribe 0 0 1 5, .subscribe 1 0 2 5, .accept 0, .accept 1, .unsubscribe 0 0 5 3, .isClosed 1,
+     .unsubscribe 1 0 5 4, .unsubscribe 1 0 5 5]
+    = [.pending 5, .pending 5, .ok, .ok, .bool true, .bool false, .bool true, .bool false] := by decide
+-- an id provider that hands out an id STILL registered on the connection (outside `ReachableD`):
+-- the accept overwrites the older entry (`HashMap::insert`), the older sink reports closed
+example : ¬ DisciplinedRun (init [(2, 8)]) [.subscribe 0 0 1 5, .accept 0, .subscribe 0 0 2 5] := by decide
+example : outs (init [(2, 8)]) [.subscribe 0 0 1 5, .accept 0, .subscribe 0 0 2 5, .accept 1, .isClosed 0,
+      .isClosed 1, .unsubscribe 0 0 5 3, .isClosed 1]
+    = [.pending 5, .ok, .pending 5, .ok, .bool true, .bool false, .bool true, .bool true] := by decide
 
 -- the truth table on a concrete history
-def okState : State := run (init [(1, 8), (1, 8)]) [.subscribe 0 0 7, .accept 0, .send 0 5]
+def okState : State := run (init [(1, 8), (1, 8)]) [.subscribe 0 0 7 1, .accept 0, .send 0 5]
 example : NoOrphan okState := by decide
 example : (step okState (.unsubscribe 0 0 1 9)).2 = .bool true := by decide
 example : (step okState (.unsubscribe 1 0 1 9)).2 = .bool false := by decide   -- another connection's id
@@ -479,17 +565,17 @@ example : (step okState (.isClosed 0)).2 = .bool false := by decide
 
 -- cap 1: the second subscribe is refused, after the first one ended (reject / sink dropped /
 -- unsubscribe + drop) a new one is admitted; cap 0 refuses everything
-example : outs (init [(1, 8)]) [.subscribe 0 0 1, .subscribe 0 0 2, .reject 0 (-5), .subscribe 0 0 3]
+example : outs (init [(1, 8)]) [.subscribe 0 0 1 1, .subscribe 0 0 2 2, .reject 0 (-5), .subscribe 0 0 3 2]
     = [.pending 1, .refused, .done, .pending 2] := by decide
-example : outs (init [(1, 8)]) [.subscribe 0 0 1, .accept 0, .unsubscribe 0 0 1 2, .subscribe 0 0 3,
-      .dropSink 0, .subscribe 0 0 4]
+example : outs (init [(1, 8)]) [.subscribe 0 0 1 1, .accept 0, .unsubscribe 0 0 1 2, .subscribe 0 0 3 2,
+      .dropSink 0, .subscribe 0 0 4 2]
     = [.pending 1, .ok, .bool true, .refused, .ok, .pending 2] := by decide
-example : outs (init [(0, 8)]) [.subscribe 0 0 1] = [.refused] := by decide
-example : outs (init [(2, 8)]) [.subscribe 0 0 1, .connClose 0, .accept 0, .subscribe 0 0 2]
+example : outs (init [(0, 8)]) [.subscribe 0 0 1 1] = [.refused] := by decide
+example : outs (init [(2, 8)]) [.subscribe 0 0 1 1, .connClose 0, .accept 0, .subscribe 0 0 2 2]
     = [.pending 1, .done, .err, .ignored] := by decide
 example : held okState 0 = 1 ∧ endedOn okState 0 = 0 := by decide
 -- c06_reuse's hypotheses are satisfiable with k = 2
-example : (([(0, 1), (1, 2)] : List (Nat × Nat)).length + held (init [(2, 8)]) 0 ≤ 2) := by decide
+example : (([(0, 1, 1), (1, 2, 2)] : List (Nat × Nat × Nat)).length + held (init [(2, 8)]) 0 ≤ 2) := by decide
 
 end Examples
 
